@@ -20,7 +20,7 @@ decidable equality (`Nat` ids in the generated tables, so that kernel evaluation
 The model is validated on every run against real Python calls of synthesised functions and
 against `inspect.Signature.bind` (harness/props/c19.py).
 
-`findUncovered O W` searches a FINITE family of representative call forms for one that the
+`findUncovered O W` searches a FINITE (linear-size) family of representative call forms for one that the
 original signature `O` accepts and the substitute `W` rejects; `Props/C19.lean` proves that the
 finite search decides the question for ALL call forms.
 -/
@@ -42,7 +42,7 @@ abbrev Sig (α : Type) := List (Param α)
 structure Call (α : Type) where
   npos : Nat
   kw : List α
-  deriving Repr
+  deriving Repr, DecidableEq
 
 def Kind.isPos : Kind → Bool
   | .posOnly => true
@@ -114,11 +114,6 @@ def reasons (S : Sig α) (c : Call α) : List String :=
 
 /-! ### The finite search -/
 
-/-- All sub-lists (as sets: every subset of the elements of `l` occurs). -/
-def subsets : List α → List (List α)
-  | [] => [[]]
-  | x :: xs => let r := subsets xs; r ++ r.map (x :: ·)
-
 /-- Names of the two signatures, each once if each signature has distinct names. -/
 def knownNames (O W : Sig α) : List α :=
   names O ++ (names W).filter (fun k => !decide (k ∈ names O))
@@ -133,15 +128,32 @@ def kwUniverse (O W : Sig α) (fresh : α) : List α :=
   if hasVarKw O then knownNames O W ++ [fresh]
   else (O.filter (fun p => p.kind.isKwAddr)).map (·.name)
 
+/-- Names the signature forces to be passed by keyword when `n` arguments are positional:
+    positional parameters beyond `n` without default, and keyword-only ones without default. -/
+def reqNames (S : Sig α) (n : Nat) : List α :=
+  (((posParams S).drop n).filter (fun p => !p.hasDefault)).map (·.name) ++
+  (S.filter (fun p => p.kind.isKwOnly && !p.hasDefault)).map (·.name)
+
+/-- Representative call forms: for every positional count up to the cap, the *minimal* call (only
+    the names `O` forces) and the minimal call plus ONE further keyword of the universe.  Binding
+    is a conjunction of per-keyword and per-parameter conditions, so these single-deviation forms
+    are complete (`J2O.Props.C19`). -/
 def candidates (O W : Sig α) (fresh : α) : List (Call α) :=
-  (subsets (kwUniverse O W fresh)).flatMap fun kw =>
-    (List.range (posCap O W + 1)).map fun n => ⟨n, kw⟩
+  (List.range (posCap O W + 1)).flatMap fun n =>
+    let r := reqNames O n
+    (⟨n, r⟩ : Call α) ::
+      ((kwUniverse O W fresh).filter (fun k => !decide (k ∈ r))).map (fun k => ⟨n, k :: r⟩)
 
 def uncoveredBy (O W : Sig α) (c : Call α) : Bool := binds O c && !binds W c
 
 /-- First representative call form accepted by `O` and rejected by `W`. -/
 def findUncoveredWith (O W : Sig α) (fresh : α) : Option (Call α) :=
   (candidates O W fresh).find? (uncoveredBy O W)
+
+/-- All representative call forms accepted by `O` and rejected by `W` (the minimal mis-bound
+    forms: every mis-bound call contains one of them, `uncovered_core`). -/
+def allUncoveredWith (O W : Sig α) (fresh : α) : List (Call α) :=
+  (candidates O W fresh).filter (uncoveredBy O W)
 
 /-- Collapse every name outside `K` to `fresh`. -/
 def collapse (K : List α) (fresh : α) (k : α) : α := if k ∈ K then k else fresh
@@ -158,6 +170,9 @@ def freshNat (l : List Nat) : Nat := l.foldr (fun a b => max a b + 1) 0
 
 def findUncovered (O W : Sig Nat) : Option (Call Nat) :=
   findUncoveredWith O W (freshNat (knownNames O W))
+
+def allUncovered (O W : Sig Nat) : List (Call Nat) :=
+  allUncoveredWith O W (freshNat (knownNames O W))
 
 /-! ### Well-formedness of a signature as `inspect.Signature` enforces it (sanity of the tables) -/
 
